@@ -75,6 +75,16 @@ type FuncContract struct {
 	LoopStep       map[int][]Clause
 	AssumeRequires map[string]string  // callee short name -> assumption name
 	AssumeKinds    map[string]string  // obligation kind -> assumption name
+	Ghosts         []*GhostDecl
+}
+
+// GhostDecl: a ghost variable of one function under contract, maintained by the engine: initialised
+// at entry, havoced at loop heads (loop invariants may constrain it), updated after calls of the
+// named callees. It exists only in the verification conditions.
+type GhostDecl struct {
+	Name string
+	Init *CE
+	On   map[string]*CE // callee short name -> new value
 }
 
 type SpecFunc struct {
@@ -374,6 +384,37 @@ func (cs *Contracts) loadFile(path string, pkgName string, commentPrefix bool) e
 					} else {
 						cur.LoopInv[n] = append(cur.LoopInv[n], Clause{Expr: e, Props: props, Text: text, Where: where})
 					}
+				}
+			case "ghost":
+				// ghost <name> = <init expr>            declares a ghost variable of the function (Int or Bool)
+				// ghost <name> on <callee> := <expr>    its new value after every call of <callee> (short name);
+				//                                       <expr> may mention result, the ghost itself and the state after the call
+				f := strings.Fields(rest)
+				if len(f) >= 3 && f[1] == "=" {
+					text := strings.TrimSpace(strings.TrimPrefix(strings.TrimSpace(strings.TrimPrefix(rest, f[0])), "="))
+					e, err := parseCE(text)
+					if err != nil {
+						return perr(err)
+					}
+					cur.Ghosts = append(cur.Ghosts, &GhostDecl{Name: f[0], Init: e, On: map[string]*CE{}})
+				} else if len(f) >= 5 && f[1] == "on" && f[3] == ":=" {
+					var g *GhostDecl
+					for _, d := range cur.Ghosts {
+						if d.Name == f[0] {
+							g = d
+						}
+					}
+					if g == nil {
+						return perr(fmt.Errorf("ghost %s updated before it is declared", f[0]))
+					}
+					text := strings.TrimSpace(rest[strings.Index(rest, ":=")+2:])
+					e, err := parseCE(text)
+					if err != nil {
+						return perr(err)
+					}
+					g.On[f[2]] = e
+				} else {
+					return perr(fmt.Errorf("expected: ghost <name> = <expr> | ghost <name> on <callee> := <expr>"))
 				}
 			case "call":
 				f := strings.Fields(rest)
